@@ -23,7 +23,7 @@ CALL2PRIM = {"Int8": "i8", "Int16": "i16", "Int32": "i32", "Int64": "i64", "UInt
              "Double": "f64", "Boolean": "bool", "Position": "pos"}
 CTYPE_W = {"int8_t": 1, "int16_t": 2, "int32_t": 4, "int64_t": 8, "uint8_t": 1, "uint16_t": 2, "uint32_t": 4,
            "uint64_t": 8, "char": 1, "size_t": 8, "float": 4, "double": 8, "bool": 1}
-FLAGS = ["checkAfterRead", "versionOr", "indexChecked", "lengthChecked", "valueStrFresh", "valueTypeLate"]
+FLAGS = ["checkAfterRead", "versionOr", "indexChecked", "lengthChecked", "valueStrFresh", "valueTypeLate", "dictLoadAdds"]
 
 
 # --------------------------------------------------------------------------------------------
@@ -126,7 +126,40 @@ def extract(repo=None):
     vnames = [x.strip() for x in m.group(1).split(",") if x.strip()]
     if any("=" in n for n in vnames) or vnames[-1] != "Max":
         raise CheckError("translator: variableType_e has explicit values / no Max sentinel")
-    return {"varTypeNames": vnames[:-1], "tagNames": names, "version": version, "nullPointer": nullp,
+    # the size bracket behind the body of an object record: one copy in ArchiveObject (read branch; ReadObject<T>()
+    # goes through it), one in the non-template ReadObject()
+    brackets = {}
+    for key, sig in [("bracketInto", r"void\s+Archiver::ArchiveObject\s*\([^)]*\)"),
+                     ("bracketPoly", r"Class\s*\*\s*Archiver::ReadObject\s*\(\s*\)")]:
+        b = func_body(src, sig)
+        if key == "bracketInto":
+            # the read branch only
+            m = re.search(r"if\s*\(\s*archivemode\s*==\s*archiveMode_e::Read\s*\)\s*\{", b)
+            if not m:
+                raise CheckError("translator: read branch of ArchiveObject not recognised")
+            i, depth = m.end(), 1
+            while i < len(b) and depth:
+                depth += {"{": 1, "}": -1}.get(b[i], 0)
+                i += 1
+            b = b[m.end():i - 1]
+        if not re.search(r"objstart\s*=\s*readStream->tellg\(\)", b) or not re.search(r"endpos\s*=\s*readStream->tellg\(\)", b):
+            raise CheckError("translator: objstart/endpos of %s not recognised" % key)
+        after = b.split("endpos", 1)[1]
+        chain = re.findall(r"if\s*\(\s*\(\s*endpos\s*-\s*objstart\s*\)\s*(>|<|!=)\s*size\s*\)\s*\{?\s*throw\s+ArchiveErrors::(\w+)\s*\(", after)
+        other = len(re.findall(r"\bthrow\b", after)) - len(chain)
+        if other or any(e not in ("ReadPastEndObject", "NotReadEntireDataObject") for _, e in chain):
+            raise CheckError("translator: size bracket of %s not recognised: %r" % (key, chain))
+        brackets[key] = chain
+    # load side of StringDictionary::ArchiveString: how the text read from the archive becomes a const_str
+    sdsrc = strip_cpp_comments(open(os.path.join(repo, "src", "Common", "StringDictionary.cpp")).read())
+    ab2 = func_body(sdsrc, r"void\s+StringDictionary::ArchiveString\s*\([^)]*\)")
+    if ab2 is None:
+        raise CheckError("translator: StringDictionary::ArchiveString not recognised")
+    m = re.search(r"constStringValue\s*=\s*(\w+)\s*\(\s*value(?:\.c_str\(\))?\s*\)\s*;", ab2)
+    if not m or m.group(1) not in ("Add", "Get"):
+        raise CheckError("translator: load side of StringDictionary::ArchiveString not recognised")
+    flags["dictLoadAdds"] = m.group(1) == "Add"
+    return {"brackets": brackets, "varTypeNames": vnames[:-1], "tagNames": names, "version": version, "nullPointer": nullp,
             "primTable": [(p, prim[p][0], prim[p][1]) for p in PRIMS], "flags": flags}
 
 
@@ -155,12 +188,20 @@ def gen_text(d):
         "def valueTypeLate : Bool := %s\n"
         "/-- `enum class variableType_e` in declaration order -/\n"
         "def varTypeNames : List String := [%s]\n"
+        "/-- `StringDictionary::ArchiveString`, load side: the text read becomes `Add(text)` (interned), not `Get(text)` -/\n"
+        "def dictLoadAdds : Bool := %s\n"
+        "/-- read branch of `ArchiveObject`: the chain `if ((endpos - objstart) OP size) throw E` behind the body -/\n"
+        "def bracketInto : List (String × String) := [%s]\n"
+        "/-- the same chain in the non-template `Class* ReadObject()` (a separate copy in the source) -/\n"
+        "def bracketPoly : List (String × String) := [%s]\n"
         "end Morfuse.Gen.Archive\n" % (
             ", ".join('"%s"' % n for n in d["tagNames"]), d["version"], d["nullPointer"],
             ", ".join('("%s", "%s", %d)' % t for t in d["primTable"]),
             b(d["flags"]["checkAfterRead"]), b(d["flags"]["versionOr"]), b(d["flags"]["indexChecked"]),
             b(d["flags"]["lengthChecked"]), b(d["flags"]["valueStrFresh"]), b(d["flags"]["valueTypeLate"]),
-            ", ".join('"%s"' % n for n in d["varTypeNames"])))
+            ", ".join('"%s"' % n for n in d["varTypeNames"]), b(d["flags"]["dictLoadAdds"]),
+            ", ".join('("%s", "%s")' % t for t in d["brackets"]["bracketInto"]),
+            ", ".join('("%s", "%s")' % t for t in d["brackets"]["bracketPoly"])))
 
 
 def translate(ctx):
@@ -196,6 +237,8 @@ def cfg_obligations(ctx, flags, need, notes):
 
 # --------------------------------------------------------------------------------------------
 # items:  ('p', prim, v) ('r', bytes) ('s', bytes) ('op', l) ('sp', l) ('pos', l) ('obj', l, cls, [items])
+#         'objt' / 'objp' instead of 'obj': the record is read back with ReadObject<T>() / the polymorphic ReadObject()
+OBJ = ("obj", "objt", "objp")
 
 def hx(b):
     return b.hex() if b else "-"
@@ -251,8 +294,8 @@ def strip_selfs(x):
         return ("v", x[1], strip_selfs(x[2]))
     if x[0] == "ca":
         return ("ca", x[1], x[2], [(0, strip_selfs(e)) for _, e in x[3]])
-    if x[0] == "obj":
-        return ("obj", x[1], x[2], strip_selfs(x[3]))
+    if x[0] in OBJ:
+        return (x[0], x[1], x[2], strip_selfs(x[3]))
     return x
 
 
@@ -266,8 +309,8 @@ def toks(items):
             out += [k, hx(it[1])]
         elif k in ("op", "sp", "pos"):
             out += [k, str(it[1])]
-        elif k == "obj":
-            out += ["obj", str(it[1]), hx(it[2]), str(len(it[3]))] + toks(it[3])
+        elif k in OBJ:
+            out += [k, str(it[1]), hx(it[2]), str(len(it[3]))] + toks(it[3])
         elif k == "v":
             out += ["v", str(it[1])] + vtoks(it[2])
     return out
@@ -286,13 +329,13 @@ def parse_items(t, selfs=True):
             return (k, b"" if t[i + 1] == "-" else bytes.fromhex(t[i + 1])), i + 2
         if k in ("op", "sp", "pos"):
             return (k, int(t[i + 1])), i + 2
-        if k == "obj":
+        if k in OBJ:
             n = int(t[i + 3])
             body, j = [], i + 4
             for _ in range(n):
                 x, j = one(j)
                 body.append(x)
-            return ("obj", int(t[i + 1]), b"" if t[i + 2] == "-" else bytes.fromhex(t[i + 2]), body), j
+            return (k, int(t[i + 1]), b"" if t[i + 2] == "-" else bytes.fromhex(t[i + 2]), body), j
         raise ValueError("bad item token " + k)
     out, i = [], 0
     while i < len(t):
@@ -302,7 +345,7 @@ def parse_items(t, selfs=True):
 
 
 def count_items(items):
-    return sum(1 + (count_items(it[3]) if it[0] == "obj" else 0) for it in items)
+    return sum(1 + (count_items(it[3]) if it[0] in OBJ else 0) for it in items)
 
 
 def registered(items, acc=None):
@@ -310,7 +353,7 @@ def registered(items, acc=None):
     for it in items:
         if it[0] == "pos":
             acc.add(it[1])
-        elif it[0] == "obj":
+        elif it[0] in OBJ:
             acc.add(it[1])
             registered(it[3], acc)
     return acc
@@ -329,7 +372,7 @@ def targets(items, acc=None):
     for it in items:
         if it[0] in ("op", "sp") and it[1]:
             acc.add(it[1])
-        elif it[0] == "obj":
+        elif it[0] in OBJ:
             targets(it[3], acc)
         elif it[0] == "v":
             vtargets(it[2], acc)
@@ -444,9 +487,14 @@ class VGen:
         return tuple(v)
 
 
-def gen_case(rng, nitems, nobj=None, maxstr=300, dangling=0.04, values=0.2):
+def gen_case(rng, nitems, nobj=None, maxstr=300, dangling=0.04, values=0.2, modes=0.6, poly_scripted=True):
     """a typed write sequence over primitives, strings, raw blocks and an object graph of `nobj`
-    listeners whose plain / safe pointers are written before and after (and inside) their targets"""
+    listeners whose plain / safe pointers are written before and after (and inside) their targets.
+    poly_scripted=False (C11): the polymorphic ReadObject() is used for Listener records only.  The model lets the
+    object that ReadObject() creates read the body the host scripted, whatever class the (possibly damaged) record
+    names; with the harness's classes that is true when the host expects a table-less Listener (a created VNode/VNodf
+    runs the host's script `p u8`, a created Listener reads its flag byte) but not when it expects a scripted body and a
+    damaged stream makes ReadObject() create a real Listener"""
     nobj = rng.randint(0, 30) if nobj is None else nobj
     labels = list(range(1, nobj + 1))
     cls = {l: rng.choice(CLASSES) for l in labels}
@@ -482,8 +530,11 @@ def gen_case(rng, nitems, nobj=None, maxstr=300, dangling=0.04, values=0.2):
         return ptr()
 
     def obj(l, depth):
+        kind = rng.choice(OBJ) if rng.random() < modes else "obj"
+        if kind == "objp" and not poly_scripted and cls[l] != b"Listener":
+            kind = "objt"
         if cls[l] == b"Listener":
-            return ("obj", l, cls[l], [("p", "u8", 0)])
+            return (kind, l, cls[l], [("p", "u8", 0)])
         body = []
         n = rng.choice([0, 0, 1, 2, 3, 5, 8])
         for _ in range(n):
@@ -497,7 +548,7 @@ def gen_case(rng, nitems, nobj=None, maxstr=300, dangling=0.04, values=0.2):
                 body.append(obj(pending.pop(), depth + 1))            # nested ArchiveObject
             else:
                 body.append(plain_item())
-        return ("obj", l, cls[l], body)
+        return (kind, l, cls[l], body)
 
     items = []
     while budget[0] > 0:
@@ -519,8 +570,8 @@ def gen_case(rng, nitems, nobj=None, maxstr=300, dangling=0.04, values=0.2):
         for it in its:
             if it[0] == "v":
                 out.append(("v", it[1], vg.freeze(it[2])))
-            elif it[0] == "obj":
-                out.append(("obj", it[1], it[2], freeze(it[3])))
+            elif it[0] in OBJ:
+                out.append((it[0], it[1], it[2], freeze(it[3])))
             else:
                 out.append(it)
         return out
